@@ -476,8 +476,7 @@ Lemma version_leb_spec : forall a1 a2 a3 b1 b2 b3,
 Proof.
   intros. unfold version_leb. rewrite negb_true_iff. rewrite <- version_ltb_spec.
   destruct (version_ltb (b1, b2, b3) (a1, a2, a3)); split; intro H; try reflexivity; try discriminate.
-  - exfalso. apply H. reflexivity.
-  - intro E. discriminate.
+  exfalso. apply H. reflexivity.
 Qed.
 
 Lemma version_leb_total : forall a b, version_leb a b = true \/ version_leb b a = true.
@@ -590,7 +589,7 @@ Proof.
   exists [([98], 1); ([65], 2); ([97], 3)]%N, [([97], 3); ([98], 1); ([65], 2)]%N.
   split; [|split; [|split]].
   - simpl. repeat constructor; simpl; intuition discriminate.
-  - apply Permutation_cons_app with (l1 := [([97], 3)]%N) (l2 := []). simpl. apply perm_swap.
+  - apply (Permutation_app_comm [([98], 1); ([65], 2)]%N [([97], 3)]%N).
   - discriminate.
   - reflexivity.
 Qed.
